@@ -3,11 +3,11 @@ SPECIFICATION Spec
 CONSTANTS
   Peers = {"p1", "p2"}
   LocalLevels = {0, 40, 75, 100}
-  PeerLevels = {0, 40, 75, 100}
+  PeerLevels = {0, 40, 100}
   Sources = {"incoming"}
   ModeNames = {"never", "monitor", "always"}
   Thresholds <- ThTwo
-  MinDurs = {0, 1, 2}
+  MinDurs = {0, 2}
   Timeout = 2
   AdvSteps = {1, 3}
   HoldStrict = TRUE
